@@ -580,10 +580,14 @@ fn op_to_f(c: &Value) -> Value {
             let m = c["mode"].as_str().unwrap_or("HalfEven");
             dispatch_base!(base, B => dispatch_mode!(m, R => {
                 let v = fbig_of::<R, B>(x);
+                // the same number held at unlimited precision (context precision 0): the conversion must not depend on it
+                let unl = FBig::<R, B>::from_repr(v.repr().clone(), Context::new(0));
                 if f32t {
                     push(&mut outs, "to_f32", guarded(|| out_f32r(v.to_f32())));
+                    push(&mut outs, "unlimited.to_f32", guarded(|| out_f32r(unl.to_f32())));
                 } else {
                     push(&mut outs, "to_f64", guarded(|| out_f64r(v.to_f64())));
+                    push(&mut outs, "unlimited.to_f64", guarded(|| out_f64r(unl.to_f64())));
                 }
             }))
         }
